@@ -9,6 +9,7 @@ package c11
 
 import (
 	"fmt"
+	"math"
 	"slices"
 	"sort"
 	"testing"
@@ -51,11 +52,14 @@ func run(rc *kernel.RunCtx) {
 				rc.Fail("panic", "container", fmt.Sprintf("panic: %v", v))
 			}
 		}()
-		switch rc.Tape.Choose(3) {
-		case 0:
+		switch rc.Tape.Choose(7) {
+		case 0, 1:
 			runSets(c, newMapObj)
-		case 1:
+		case 2, 3:
 			runSets(c, newSortedObj)
+		case 4:
+			// An element type with a non-trivial order (NaN, infinities).
+			runSets(c, newSortedFloatObj)
 		default:
 			runRing(c)
 		}
@@ -97,7 +101,9 @@ func (o mapObj) equal(x setAPI) bool      { return o.s.Equal(x.(mapObj).s) }
 func (o mapObj) kind() string             { return "MapSet" }
 func (o mapObj) sorted() bool             { return false }
 
-type sortedObj struct{ s *container.SortedSliceSet[int] }
+type sortedObj struct {
+	s *container.SortedSliceSet[int]
+}
 
 func (o sortedObj) Add(v int)                { o.s.Add(v) }
 func (o sortedObj) Clear()                   { o.s.Clear() }
@@ -111,6 +117,68 @@ func (o sortedObj) clone() setAPI            { return sortedObj{o.s.Clone()} }
 func (o sortedObj) equal(x setAPI) bool      { return o.s.Equal(x.(sortedObj).s) }
 func (o sortedObj) kind() string             { return "SortedSliceSet" }
 func (o sortedObj) sorted() bool             { return true }
+
+// floatUniverse maps the model's universe 0..7 onto float64 values in the
+// order of cmp.Compare.  NaN (index 0) is used as an argument of Has and
+// Delete only and is never added: "the set of added values" is defined by ==,
+// under which NaN is not a value that can be found again.  (Observed and not
+// flagged: NewSortedSliceSet(NaN, NaN) keeps both, and Equal is false for sets
+// that contain NaN, because slices.Compact and slices.Equal use ==.)
+var floatUniverse = [universe]float64{math.NaN(), math.Inf(-1), -1.5, 0, 1, 2.25, 1e300, math.Inf(1)}
+
+func floatIndex(f float64) int {
+	for i, x := range floatUniverse {
+		if x == f || (math.IsNaN(x) && math.IsNaN(f)) {
+			return i
+		}
+	}
+
+	return -1
+}
+
+// sortedFloatObj is SortedSliceSet[float64] behind the int-valued API.
+type sortedFloatObj struct {
+	s *container.SortedSliceSet[float64]
+}
+
+func (o sortedFloatObj) Add(v int)      { o.s.Add(floatUniverse[v]) }
+func (o sortedFloatObj) Clear()         { o.s.Clear() }
+func (o sortedFloatObj) Delete(v int)   { o.s.Delete(floatUniverse[v]) }
+func (o sortedFloatObj) Has(v int) bool { return o.s.Has(floatUniverse[v]) }
+func (o sortedFloatObj) Len() int       { return o.s.Len() }
+func (o sortedFloatObj) Range(f func(v int) bool) {
+	o.s.Range(func(x float64) bool { return f(floatIndex(x)) })
+}
+
+func (o sortedFloatObj) Values() []int {
+	vals := o.s.Values()
+	if vals == nil {
+		return nil
+	}
+	out := make([]int, 0, len(vals))
+	for _, x := range vals {
+		out = append(out, floatIndex(x))
+	}
+
+	return out
+}
+func (o sortedFloatObj) isNil() bool         { return o.s == nil }
+func (o sortedFloatObj) clone() setAPI       { return sortedFloatObj{o.s.Clone()} }
+func (o sortedFloatObj) equal(x setAPI) bool { return o.s.Equal(x.(sortedFloatObj).s) }
+func (o sortedFloatObj) kind() string        { return "SortedSliceSet" }
+func (o sortedFloatObj) sorted() bool        { return true }
+
+func newSortedFloatObj(vals []int, nilSet bool) setAPI {
+	if nilSet {
+		return sortedFloatObj{nil}
+	}
+	fs := make([]float64, 0, len(vals))
+	for _, v := range vals {
+		fs = append(fs, floatUniverse[v])
+	}
+
+	return sortedFloatObj{container.NewSortedSliceSet(fs...)}
+}
 
 // newMapObj and newSortedObj construct a set from initial values (nilSet: a
 // nil receiver).
@@ -151,6 +219,7 @@ const universe = 8
 
 func runSets(c *ctx, mk func(vals []int, nilSet bool) setAPI) {
 	tp, rc := c.rc.Tape, c.rc
+	_, floats := mk(nil, true).(sortedFloatObj)
 	var objs []*live
 	newLive := func(o setAPI, m map[int]bool) *live {
 		l := &live{obj: o, model: m, name: "s" + kernel.Itoa(len(objs))}
@@ -161,7 +230,11 @@ func runSets(c *ctx, mk func(vals []int, nilSet bool) setAPI) {
 	// Origin from drawn initial values (with duplicates, unsorted).
 	var init []int
 	for n := tp.Choose(6); n > 0; n-- {
-		init = append(init, tp.Choose(universe))
+		v := tp.Choose(universe)
+		if floats && v == 0 {
+			v = 1 // NaN is never added
+		}
+		init = append(init, v)
 	}
 	m0 := map[int]bool{}
 	for _, v := range init {
@@ -185,8 +258,8 @@ func runSets(c *ctx, mk func(vals []int, nilSet bool) setAPI) {
 		rc.Steps++
 		switch op {
 		case 0, 1:
-			if isNil {
-				continue // Add on a nil set is not documented to work.
+			if isNil || (floats && v == 0) {
+				continue // Add on a nil set is not documented to work; NaN is never added.
 			}
 			l.obj.Add(v)
 			l.model[v] = true
